@@ -147,6 +147,10 @@ pub struct WorldCfg {
     /// with according to the history of accepted calls)
     #[serde(default, with = "oustr")]
     pub spare_if: Option<U>,
+    /// the accounts that hold (or may come to hold) a role - owner, pauser, the owners of the other contracts, and the
+    /// accounts roles are handed to - are funded and trade like anybody else
+    #[serde(default)]
+    pub roles_trade: bool,
 }
 
 impl WorldCfg {
